@@ -13,6 +13,7 @@ use core::ops::Deref;
 verus! {
 //@@ INCLUDE lib/prelude.rs
 //@@ INCLUDE lib/div_dword_stubs.rs
+//@@ INCLUDE lib/div_post_spec.rs
 //@@ INCLUDE lib/mod2_ring.rs
 //@@ INCLUDE lib/mod2_mem.rs
 //@@ SIG integer/primitive/extend_word.rs
